@@ -44,6 +44,27 @@ OPS = [
 ]
 
 
+# a second operator set (MUT_OPS=B): swapped arguments, neighbouring fields / locals of the same type exchanged, `Some(..)`
+# results dropped, ranges and lengths off by one
+OPS_B = [
+    ("arg-swap", r"\((\w[\w.]*), (\w[\w.]*)\)", None),
+    ("delay-duration", r"\bdelay\b", "duration"), ("duration-delay", r"\bduration\b", "delay"),
+    ("start-end", r"\bstart_frame\b", "end_frame"), ("end-start", r"\bend_frame\b", "start_frame"),
+    ("cur-next", r"\bcurrent_state\b", "state"), ("was-will", r"\bwas_animating\b", "will_animate"),
+    ("will-was", r"\bwill_animate\b", "was_animating"),
+    ("some-to-none", r"(=> |^\s+)Some\(([^()]*|[^()]*\([^()]*\)[^()]*)\)(,?)$", None),
+    ("len-minus-1", r"\.len\(\)(?! - 1)", ".len() - 1"), ("drop-minus-1", r" - 1\b", ""),
+    ("index-plus-1", r"\[(\w+)\]", None),
+    ("rem-quot", r"\brem\b", "quot"), ("quot-rem", r"\bquot\b", "rem"),
+    ("x-y", r"\.x\b", ".y"), ("first-second", r"\.0\b(?!\.)", ".1"),
+    ("values-target", r"\bcurrent_values\b", "initial_values"),
+    ("clone-default", r"\.clone\(\)$", ".clone()"),
+    ("self-other", r"\bself\.(\w+), other\.(\w+)", None),
+]
+if os.environ.get("MUT_OPS") == "B":
+    OPS = OPS_B
+
+
 def production_lines(text):
     """indices of lines that belong to non-test code and are not comments / attributes / imports"""
     lines = text.split("\n")
@@ -96,6 +117,16 @@ def mutants(root):
                 elif name == "del-stmt":
                     new = m.group(1) + "// " + ln.strip()
                 elif name == "ret-early":
+                    continue
+                elif name == "arg-swap":
+                    if m.group(1) == m.group(2):
+                        continue
+                    new = ln[:m.start()] + "(%s, %s)" % (m.group(2), m.group(1)) + ln[m.end():]
+                elif name == "some-to-none":
+                    new = ln[:m.start()] + m.group(1) + "None" + m.group(3) + ln[m.end():]
+                elif name == "index-plus-1":
+                    new = ln[:m.start()] + "[%s + 1]" % m.group(1) + ln[m.end():]
+                elif name in ("clone-default", "self-other"):
                     continue
                 else:
                     new = ln[:m.start()] + re.sub(pat, rep, ln[m.start():], count=1)
